@@ -338,7 +338,7 @@ def run_chunk(chunk, tier, seed):
         return acc
     gd = direct_graphs(tier, seed)[k]
     if typ == "direct":
-        iters = range(1, 7) if tier == "quick" else (range(1, 9) if gd[0] == "slam" and gd[1]["n"] > 3 else list(range(1, 9)) + [12, 20, 30])
+        iters = (list(range(1, 7)) + ([7, 9, 16] if gd[0] != "slam" or gd[1]["n"] <= 3 else [])) if tier == "quick" else (range(1, 9) if gd[0] == "slam" and gd[1]["n"] > 3 else list(range(1, 9)) + [12, 20, 30])
         for tol in DIRECT_TOLS:
             for mi in iters:
                 case = {"t": "direct", "graph": list(gd), "seed": seed, "tol": tol, "max_iter": mi}
